@@ -71,4 +71,42 @@ theorem setAt_rowImg (A B : Bytes) (stride ox w : Nat) (p : Bytes) (v : UInt8)
   simp only [this, if_true]
   rw [set_rowImg A B stride ox w p v hx hw]
 
+theorem rowImg_take (stride ox w : Nat) (r : Bytes) (h : w ≤ r.length) :
+    rowImg stride ox w (r.take w) = rowImg stride ox w r := by
+  unfold rowImg
+  simp only [List.take_take, Nat.min_self, List.length_take]
+  congr 2
+  omega
+
+/-- the bytes from row `y` on, in a concatenation of rows of equal length `s` -/
+theorem drop_flatten_uniform (s : Nat) : ∀ (rows : List Bytes) (y : Nat), (∀ r ∈ rows, r.length = s) → (hy : y < rows.length) →
+    rows.flatten.drop (y * s) = rows[y] ++ (rows.drop (y + 1)).flatten := by
+  intro rows
+  induction rows with
+  | nil => intro y _ hy; simp at hy
+  | cons r rs ih =>
+    intro y hl hy
+    cases y with
+    | zero => simp
+    | succ y =>
+      have hr : r.length = s := hl r (by simp)
+      simp only [List.flatten_cons, List.getElem_cons_succ, List.drop_succ_cons]
+      have : (y + 1) * s = r.length + y * s := by rw [Nat.add_mul, hr]; omega
+      rw [this, List.drop_append]
+      simp only [Nat.add_sub_cancel_left]
+      rw [List.drop_of_length_le (by omega)]
+      simp only [List.nil_append]
+      exact ih y (fun r' h => hl r' (by simp [h])) (by simpa using hy)
+
+theorem byteAt_of_drop (l : Bytes) (k : Nat) (v : UInt8) (t : Bytes) (h : l.drop k = v :: t) : byteAt l k = .ok v := by
+  unfold byteAt
+  have : l[k]? = some v := by
+    have := congrArg (fun x => x[0]?) h
+    simpa using this
+  simp [this]
+
+theorem drop_succ_of_drop (l : Bytes) (k : Nat) (v : UInt8) (t : Bytes) (h : l.drop k = v :: t) : l.drop (k + 1) = t := by
+  have : l.drop (k + 1) = (l.drop k).drop 1 := by rw [List.drop_drop]
+  rw [this, h]; rfl
+
 end Drx.Bitd
